@@ -43,10 +43,10 @@ func ip4(b []byte, r *rec.Rec) net.IP {
 	if r != nil && r.Bool("_ip16") {
 		return net.IPv4(b[0], b[1], b[2], b[3]) // 16-byte representation of an IPv4 address
 	}
-	return net.IP(append([]byte(nil), b...))
+	return net.IP(Own(b))
 }
-func ip6(b []byte) net.IP             { return net.IP(append([]byte(nil), pad(b, 16)...)) }
-func mac(b []byte) net.HardwareAddr   { return net.HardwareAddr(append([]byte(nil), pad(b, 6)...)) }
+func ip6(b []byte) net.IP             { return net.IP(Own(pad(b, 16))) }
+func mac(b []byte) net.HardwareAddr   { return net.HardwareAddr(Own(pad(b, 6))) }
 func macp(b []byte) *net.HardwareAddr { m := mac(b); return &m }
 
 var MFCtors []*MFCtor
@@ -178,7 +178,7 @@ func init() {
 		idx := i
 		addCtor(&MFCtor{Name: fmt.Sprintf("NewTunMetadataField%d", idx), Class: nxm1, Field: uint8(40 + idx), Maskable: true, Decodes: true,
 			Build: func(v, m []byte, r *rec.Rec) (*of.MatchField, error) {
-				return of.NewTunMetadataField(idx, append([]byte(nil), v...), append([]byte(nil), m...)), nil
+				return of.NewTunMetadataField(idx, Own(v), Own(m)), nil
 			}})
 	}
 	addCtor(&MFCtor{Name: "NewCTStateMatchField", Class: nxm1, Field: 105, Maskable: true, Decodes: true,
@@ -268,13 +268,13 @@ func init() {
 		addCtor(&MFCtor{Name: "generic:" + name, Class: ref.Class, Field: ref.Field, Maskable: true, Decodes: libDecodes(ref.Class, ref.Field),
 			Build: func(v, m []byte, r *rec.Rec) (*of.MatchField, error) {
 				if m == nil {
-					return of.NewMatchField[[]byte, int](name, append([]byte(nil), v...))
+					return of.NewMatchField[[]byte, int](name, Own(v))
 				}
 				// the window (_ofs, _n) produces the mask; the builder is given the unshifted value
 				ofs, n := int(r.U("_ofs")), int(r.U("_n"))
 				val := new(big.Int).Rsh(new(big.Int).SetBytes(v), uint(ofs))
 				if r.Bool("_noshift") {
-					return of.NewMatchField[[]byte, int](name, append([]byte(nil), v...), ofs, n, 0)
+					return of.NewMatchField[[]byte, int](name, Own(v), ofs, n, 0)
 				}
 				return of.NewMatchField[*big.Int, int](name, val, ofs, n)
 			}})
